@@ -110,7 +110,7 @@ def run(chk, failed):
             obj = {"kind": "history", "probe": "core/TestVerifProbeMetrics", "case": c, "impl_output": a, "model_output": b,
                    "first_difference": first_diff(G.project(a), G.project(b)),
                    "oracle_verdict": "the property's rules hold on this output; the model no longer describes the served data",
-                   "broken": "corr:metrics.scrape/json views (MetricsProofs.metrics_equal_state is about a model that no longer matches)",
+                   "broken": "corr:metrics.scrape/json views (MetricsFullProofs.metrics_equal_state is about a model that no longer matches)",
                    "cmd": "bin/check C17 --replay <this file>"}
             if found and i == corr[0][0]:
                 obj.update({"case": found[0], "impl_output": found[1], "oracle_verdict": found[2]})
